@@ -170,3 +170,33 @@ func VerifH_C13_roundtrip_extended() {
 	expectMessage(rc, kind, data, "extended-length message")
 	expectEnd(rc, "stream")
 }
+
+// Two messages in a row through the streaming writer (the second one reuses whatever
+// buffer the first one left behind: grown, pooled or fresh); the first writer is closed
+// explicitly or implicitly by the next NextWriter.
+func VerifH_C13_stream_two_messages() {
+	w := c13W()
+	st := &fakeStream{failAt: -1}
+	c := pickConn(st, w)
+	maxLen := 2*(w+9) + 3
+	k1, k2 := verif.Choose(2)+1, verif.Choose(2)+1
+	d1 := verif.BytesN(verif.Int(0, maxLen))
+	d2 := verif.BytesN(verif.Int(0, 4))
+	w1, err := c.NextWriter(k1)
+	verif.Assert(err == nil, "NextWriter 1")
+	n1, e1 := w1.Write(d1)
+	verif.Assert(e1 == nil && n1 == len(d1), "Write 1")
+	explicit := verif.Bool()
+	if explicit {
+		verif.Assert(w1.Close() == nil, "Close 1")
+	}
+	w2, err := c.NextWriter(k2)
+	verif.Assert(err == nil, "NextWriter 2")
+	n2, e2 := w2.Write(d2)
+	verif.Assert(e2 == nil && n2 == len(d2), "Write 2")
+	verif.Assert(w2.Close() == nil, "Close 2")
+	rc, _ := newReaderConn(st.wire(), 2)
+	expectMessage(rc, k1, d1, "first streamed message")
+	expectMessage(rc, k2, d2, "second streamed message")
+	expectEnd(rc, "stream")
+}
